@@ -518,6 +518,14 @@ def gen_value(rng, t, built, size=3):
     """A Python value conforming to type `t` (classes taken from `built`)."""
     k = t['k']
     a = t.get('a', [])
+    if t.get('rec'):
+        # a wrapper on the way to a 'ref' (recursive class models, see rec_link): the recursion ends when the size is used up
+        if size <= 0:
+            return rec_terminal(t)
+        if k == 'optional' and rng.random() < 0.7:
+            return gen_value(rng, a[0], built, size)
+    if k == 'ref':
+        return gen_instance(rng, built.infos[t['name']], built, size - 1)
     if k in ('int', 'float', 'str', 'bool', 'none', 'any', 'decimal', 'path', 'uuid', 'date', 'time', 'datetime',
              'timedelta', 'bytes', 'bytearray'):
         return gen_scalar(rng, k)
@@ -605,6 +613,31 @@ def class_object(rng, built):
     if own and r < 0.65:
         return rng.choice(own)
     return rng.choice(BUILTIN_CLASS_OBJECTS)
+
+
+REC_LINKS = ['optional', 'optional', 'list', 'dictval', 'vtuple', 'deque', 'optional-list', 'pair', 'list-of-optional']
+
+
+def rec_link(kind, target):
+    """a type that reaches `target` (a 'ref' node, or a class model that leads to one) and has a value that ends the recursion
+    (None / an empty container); every wrapper node is marked 'rec' so that gen_value can end the recursion there"""
+    R = lambda k, *a: dict(T(k, *a), rec=True)
+    return {'optional': lambda: R('optional', target), 'list': lambda: R('list', target), 'dictval': lambda: R('dict', T('str'), target),
+            'vtuple': lambda: R('vtuple', target), 'deque': lambda: R('deque', target), 'optional-list': lambda: R('optional', R('list', target)),
+            'pair': lambda: T('tuple', T('int'), R('optional', target)), 'list-of-optional': lambda: R('list', R('optional', target))}[kind]()
+
+
+def rec_default(kind):
+    """the natural default of a recursive field of that link (None / an empty container), or None when it has none"""
+    return {'optional': ['lit', None], 'list': ['list'], 'dictval': ['dict'], 'vtuple': ['tuple'], 'optional-list': ['lit', None],
+            'list-of-optional': ['list']}.get(kind)
+
+
+def rec_terminal(t):
+    k = t['k']
+    if k == 'optional':
+        return None
+    return {'list': list, 'dict': dict, 'vtuple': tuple, 'deque': collections.deque}[k]()
 
 
 _NO_FALSY = object()
